@@ -6,11 +6,18 @@ import gen, s4, lang, findings
 from props import c01
 
 PROP_FILE = 'Props/C04.v'
-GROUPS = ['imain', 'headform']
+GROUPS = ['imain', 'headform', 'headranges']
 LEAF_LEMMAS = []
 ASSUMPTIONS = ['gringo/clasp contract G1-G6 (DESIGN.md 5.3)',
                'completeness of the head translation (every temporal stable model is reported) is NOT a theorem; it is covered by this correspondence only (a test)']
-replay = c01.replay
+def replay(ctx, payload):
+    inp = payload['input']
+    if 'intervals' in inp:
+        q = [tuple(x) for x in inp['intervals']]
+        a = ctx.impl().run([{'cmd': 'intervalset', 'intervals': [list(x) for x in q]}])[0]
+        m = ctx.model().run(['ivs %d %s' % (len(q), ' '.join('%d %d' % x for x in q))])[0]
+        return a.get('status') != 'ok' or (m or '').strip() != a.get('set', '').strip()
+    return c01.replay(ctx, payload)
 
 
 def head_rule(rng, atoms, depth):
@@ -108,6 +115,20 @@ def run(ctx):
         for r in p:
             if r['head'][0] == 'tel':
                 gen.ops_of(r['head'][1], ops)
+    # IntervalSet: the extracted model against the class of transformers/head.py on random sequences of intervals
+    rng = ctx.rng('intervals')
+    seqs = [[(a, a + rng.randint(0, 4)) for a in (rng.randint(-2, 12) for _ in range(rng.randint(1, 6)))] for _ in range(300 if ctx.quick else 2000)]
+    seqs += [[(1, 2), (3, 4), (2, 3)], [(1, 2), (3, 4), (5, 7), (0, 10)], [(0, 2), (4, 6), (2, 3)], [(4, 6), (0, 2), (2, 4), (8, 9)], [(0, 1), (2, 3), (4, 5), (1, 2)]]
+    ia = ctx.impl().run([{'cmd': 'intervalset', 'intervals': [list(x) for x in q]} for q in seqs], timeout=20)
+    ma = ctx.model().run(['ivs %d %s' % (len(q), ' '.join('%d %d' % x for x in q)) for q in seqs], timeout=20)
+    ivbad = 0
+    for q, a, m in zip(seqs, ia, ma):
+        if a.get('status') != 'ok' or (m or '').strip() != a.get('set', '').strip():
+            ivbad += 1
+            res['counterexamples'].append({'key': 'c04:intervalset:%s' % q, 'what': 'IntervalSet(%s) is %s, Model/IntervalSet.of_list gives %s' % (q, a.get('set', a.get('type')), m),
+                                           'input': {'intervals': [list(x) for x in q]}})
+    res['coverage']['evaluations'] += len(seqs)
+    res['coverage']['interval_sequences'] = len(seqs)
     res['coverage']['operator_histogram'] = dict(sorted(ops.items()))
     res['coverage']['generated_but_skipped_in_open_finding_class'] = dict(skipped)
     return res
